@@ -153,14 +153,14 @@ def cargo_build(profile, hooks=True, features=None):
     binp = os.path.join(tdir, "release" if profile == "release" else "debug", "nbharness")
     return rc, out, binp
 
-def run_harness(binp, lines, timeout_per_batch=60, tags=False):
+def run_harness(binp, lines, timeout_per_batch=60, tags=False, extra_args=()):
     """run request lines; isolates crashes/timeouts to single lines. returns list of result strings"""
     results = [None] * len(lines)
     start = 0
     crashes = 0
     while start < len(lines):
         chunk = lines[start:]
-        cmd = [binp] + (["--tags"] if tags else [])
+        cmd = [binp] + (["--tags"] if tags else []) + list(extra_args)
         if crashes:
             cmd.append("--flush")
         try:
@@ -314,10 +314,10 @@ def shrink_candidates(line):
             seen.add(c); out.append(c)
     return out
 
-def still_fails(binp, cands):
+def still_fails(binp, cands, extra_args=()):
     if not cands:
         return None
-    impl = run_harness(binp, cands, timeout_per_batch=30)
+    impl = run_harness(binp, cands, timeout_per_batch=30, extra_args=extra_args)
     mo = run_driver(cands)
     for c, r, (m, o) in zip(cands, impl, mo):
         if r in ("unsupported", "skipped", None) or m == "unsupported" or o == "-":
@@ -326,10 +326,10 @@ def still_fails(binp, cands):
             return c, r, m, o
     return None
 
-def shrink(binp, line, r, m, o, rounds=40):
+def shrink(binp, line, r, m, o, rounds=40, extra_args=()):
     cur = (line, r, m, o)
     for _ in range(rounds):
-        nxt = still_fails(binp, shrink_candidates(cur[0]))
+        nxt = still_fails(binp, shrink_candidates(cur[0]), extra_args)
         if nxt is None:
             break
         cur = nxt
@@ -477,8 +477,12 @@ def main():
             machinery_errors.append(str(e))
             mo = None
         if mo is not None:
-            for profile, binp in bins.items():
-                raw = run_harness(binp, lines, tags=hooks_on)
+            runs = list(bins.items())
+            if "release" in bins:
+                # same binary, operands built with spare capacity (buffer-reuse / capacity-gated paths)
+                runs.append(("release-spare", bins["release"]))
+            for profile, binp in runs:
+                raw = run_harness(binp, lines, tags=hooks_on, extra_args=(["--spare"] if profile == "release-spare" else []))
                 impl, tags = [], []
                 for r in raw:
                     a, b = split_tags(r)
@@ -525,11 +529,11 @@ def main():
     reported = set()
     failing.sort(key=lambda f: (f[4] != "impl_oracle", len(f[0])))
     for (line, r, m, o, kind, profile) in failing[:40]:
-        binp = bins[profile]
+        binp = bins.get(profile) or bins["release"]
         if kind == "impl_oracle":
             if len([v for v in violations if not v[1]]) >= 3:
                 continue
-            sl, sr, sm, so = shrink(binp, line, r, m, o)
+            sl, sr, sm, so = shrink(binp, line, r, m, o, extra_args=(['--spare'] if profile == 'release-spare' else []))
             key = sl
             if key in reported:
                 continue
